@@ -454,6 +454,22 @@ impl Condition for NumericCondition {
                     unreachable!("IN operation should not be used with NumericCondition")
                 }
             }
+        } else if let Some(f) = accessor.get_field_as_f64(&self.field) {
+            // A float value (e.g. 80.25) has no i64 reading: compare as f64, like `evaluate_at`
+            // does for a float column
+            let rhs = self.value as f64;
+            match self.operation {
+                CompareOp::Gt => f > rhs,
+                CompareOp::Gte => f >= rhs,
+                CompareOp::Lt => f < rhs,
+                CompareOp::Lte => f <= rhs,
+                CompareOp::Eq => f == rhs,
+                CompareOp::Neq => f != rhs,
+                CompareOp::In => {
+                    // IN operation should use InNumericCondition, not NumericCondition
+                    unreachable!("IN operation should not be used with NumericCondition")
+                }
+            }
         } else {
             false
         }
